@@ -344,3 +344,7 @@ def members(xs):
 def exclude_case_unless(cond):
     if not cond:
         raise PreconditionFailed()
+
+
+def exact_rational_floats(on=True):
+    pass
